@@ -95,14 +95,13 @@ def _nice_model(path, neg, inputs, timeout_ms):
     """Prefer a counterexample with moderate magnitudes (replays well in floats)."""
     for lo, hi in ((Fraction(1, 100), 100), (Fraction(1, 10**4), 10**4), (Fraction(1, 10**8), 10**8)):
         s = z3.Solver()
-        s.set('timeout', min(timeout_ms, 10000))
         s.add(*path.assumptions)
         s.add(*path.axioms)
         s.add(*path.pc)
         s.add(neg)
         for v in inputs.values():
             s.add(z3.Or(v == 0, z3.And(v >= sym.qval(lo), v <= hi), z3.And(v <= -sym.qval(lo), v >= -hi)))
-        if s.check() == z3.sat:
+        if sym.zcheck(s, min(timeout_ms, 10000)) == z3.sat:
             return s.model()
     return None
 
@@ -166,6 +165,10 @@ def run_case(case, tier, seed):
         res['wall_s'] = time.time() - t0
         return res
     res['paths'] = len(paths)
+    if not paths:
+        res['harness_error'] = 'no feasible path explored (vacuous harness)'
+        res['wall_s'] = time.time() - t0
+        return res
     res['complete'] = bool(complete)
     res['aborted'] = aborted
     seen_claims = set()
@@ -181,11 +184,10 @@ def run_case(case, tier, seed):
             res['stub_calls'][k] = res['stub_calls'].get(k, 0) + v
         # vacuity twin: the path's assumptions must be satisfiable
         s = z3.Solver()
-        s.set('timeout', 10000)
         s.add(*p.assumptions)
         s.add(*p.axioms)
         s.add(*p.pc)
-        r = s.check()
+        r = sym.zcheck(s, 10000)
         if r == z3.unsat:
             res['vacuity_ok'] = False
             res['inconclusive'].append(dict(case=case.name, path=pi, claim='<vacuous path>', why='pc unsat'))
@@ -194,7 +196,6 @@ def run_case(case, tier, seed):
         # encoding validation: concrete sample lying on this path
         for CE in conc_runs:
             sv = z3.Solver()
-            sv.set('timeout', 10000)
             sv.add(*p.assumptions); sv.add(*p.axioms); sv.add(*p.pc)
             ok = True
             for k, var in E.inputs.items():
@@ -202,7 +203,7 @@ def run_case(case, tier, seed):
                     ok = False
                     break
                 sv.add(var == sym.qval(CE.used[k]))
-            if not ok or sv.check() != z3.sat:
+            if not ok or sym.zcheck(sv, 10000) != z3.sat:
                 continue
             m = sv.model()
             cvals = {}
@@ -308,6 +309,80 @@ def _worker(args):
                     wall_s=0.0)
 
 
+def _child(i, tier, seed, conn):
+    try:
+        r = _worker((i, tier, seed))
+    except BaseException as e:  # noqa: BLE001
+        r = _empty(_CASES[i].name, 'worker died: %r' % (e,))
+    try:
+        conn.send(r)
+    finally:
+        conn.close()
+
+
+def _empty(name, err=None, timeout=False):
+    r = dict(case=name, harness_error=err, paths=0, complete=False, claims=0, discharged=0, inconclusive=[],
+             violations=[], unreproduced=[], queries=0, solver_s=0.0, how={}, samples=[], validation_points=0,
+             validation_mismatch=[], vacuity_ok=True, stub_calls={}, branch_decisions=0, aborted=0, unknown_branches=0,
+             distinct=0, wall_s=0.0)
+    if timeout:
+        r['inconclusive'] = [dict(case=name, claim='<whole case>', why='case wall-time budget exhausted; process killed')]
+        r['timed_out'] = True
+    return r
+
+
+def _schedule(cases, tier, seed, jobs, default_budget, verbose):
+    """One forked process per case, at most `jobs` at a time, each killed at its wall-time budget
+    (a killed case is reported inconclusive, never as success)."""
+    ctxm = mp.get_context('fork')
+    pending = list(range(len(cases)))
+    running = {}
+    results = []
+    while pending or running:
+        while pending and len(running) < jobs:
+            i = pending.pop(0)
+            pr, pw = ctxm.Pipe(duplex=False)
+            proc = ctxm.Process(target=_child, args=(i, tier, seed, pw))
+            proc.start()
+            pw.close()
+            running[i] = (proc, pr, time.time())
+        done = []
+        for i, (proc, pr, st) in running.items():
+            budget = cases[i].budget_s or default_budget
+            r = None
+            if pr.poll(0):
+                try:
+                    r = pr.recv()
+                except EOFError:
+                    r = _empty(cases[i].name, 'worker exited without a result (exit code %s)' % proc.exitcode)
+            elif not proc.is_alive():
+                if pr.poll(0.2):
+                    try:
+                        r = pr.recv()
+                    except EOFError:
+                        r = None
+                if r is None:
+                    r = _empty(cases[i].name, 'worker crashed (exit code %s)' % proc.exitcode)
+            elif time.time() - st > budget:
+                proc.kill()
+                r = _empty(cases[i].name, None, timeout=True)
+                r['wall_s'] = time.time() - st
+            if r is not None:
+                proc.join(timeout=5)
+                if proc.is_alive():
+                    proc.kill()
+                pr.close()
+                done.append(i)
+                results.append(r)
+                if verbose:
+                    _print_case(r)
+        for i in done:
+            del running[i]
+        if not done:
+            time.sleep(0.05)
+    return results
+
+
 def warmup():
     """Touch every public lazy property group in canonical order before anything else."""
     import periodictable as pt
@@ -364,19 +439,15 @@ def run_property(pid, tier='quick', seed=0, only=None, jobs=None, verbose=False)
     global _CASES
     _CASES = cases
     jobs = jobs or min(16, max(1, len(cases)))
+    default_budget = 240 if tier == 'quick' else 1500
     results = []
-    if jobs == 1 or len(cases) == 1:
+    if jobs == 1 and os.environ.get('PVERIF_INPROCESS'):
         for i in range(len(cases)):
             results.append(_worker((i, tier, seed)))
             if verbose:
                 _print_case(results[-1])
     else:
-        ctxm = mp.get_context('fork')
-        with ctxm.Pool(jobs, maxtasksperchild=8) as pool:
-            for r in pool.imap_unordered(_worker, [(i, tier, seed) for i in range(len(cases))]):
-                results.append(r)
-                if verbose:
-                    _print_case(r)
+        results = _schedule(cases, tier, seed, jobs, default_budget, verbose)
     results.sort(key=lambda r: r['case'])
     return finish(pid, tier, seed, mod, results, time.time() - t0)
 
